@@ -38,6 +38,7 @@ def gen(rng):
     given = rng.choice(['none', 'none', 'n_word', 'n_frac', 'n_int+n_frac', 'n_int+n_word', 'n_int'])
     c = {'vals': [str(v) for v in vals], 'signed': signed, 'given': given, 'shape': 'scalar' if n == 1 and rng.random() < 0.7 else 'array',
          'carrier': rng.choice(['float', 'float', 'int'])}
+    if rng.random() < 0.25: c['prelude'] = rng.choice([1, 3, 6])
     # NumPy carriers of a narrow dtype (values that the dtype holds exactly)
     if rng.random() < 0.3:
         import numpy as np
@@ -73,6 +74,11 @@ def run_cases(cases, res):
             dt = np.dtype(c['carrier'][3:])
             val = dt.type(nums[0]) if c['shape'] == 'scalar' else np.array(nums, dtype=dt)
         try:
+            if c.get('prelude'):
+                # an earlier construction of the same values in the same process under a COARSE max_error (it may legitimately stop early):
+                # nothing of it may survive into the construction under test
+                try: fx.Fxp(val, max_error=2.0 ** -c['prelude'], **{k_: v_ for k_, v_ in kw.items() if k_ == 'signed'})
+                except Exception: pass
             x = fx.Fxp(val, **kw)
             obs = {'fmt': (bool(x.signed), int(x.n_word), int(x.n_frac)), 'n_int': int(x.n_int), 'codes': lib.codes_of(x), 'status': lib.status3(x), 'dtype': x.dtype}
         except Exception as e:
